@@ -201,10 +201,14 @@ Definition show_rval (v : rval) : string :=
   match v with VInt z => show_Z z | VTup l => show_list show_Z l end.
 
 Definition six : list nat := [0; 1; 2; 3; 4; 5].
-Definition init_store : store :=
+Definition init_store0 : store :=
   (map (fun i => (place_p i, VInt (- (100 + Z.of_nat i))%Z)) six ++
    map (fun i => (place_f i, VInt (- (200 + Z.of_nat i))%Z)) six ++
    map (fun i => (place_x i, VInt (- (300 + Z.of_nat i))%Z)) six)%list.
+
+(** the one-component-tuple cases declare p0 with the tuple type *)
+Definition init_store (tup1 : bool) : store :=
+  if tup1 then (place_p 0, VTup [(-100)%Z]) :: init_store0 else init_store0.
 
 Definition show_place (st : store) (pl : list tok) : string :=
   match lookup pl st with Some v => show_rval v | None => "?" end.
@@ -221,9 +225,11 @@ Definition run_rebind (mac shape : string) (kinds : list string) (variant : stri
   match build_rpat shape kinds with
   | None => None
   | Some (RP t ty as rp) =>
+      let tup1 := String.eqb variant "OT1" || String.eqb variant "ET1" in
+      let init_store := init_store tup1 in
       let e : result rval Z :=
         if String.eqb variant "OS" then Ok (VInt (hd 0%Z payload))
-        else if String.eqb variant "OT" then Ok (VTup payload)
+        else if String.eqb variant "OT" || String.eqb variant "OT1" then Ok (VTup payload)
         else Err (hd 0%Z payload) in
       let out :=
         if String.eqb mac "rebind_if_ok" then Some (rebind_if_ok_m rp e init_store)
